@@ -20,11 +20,7 @@ for d in sorted(glob.glob(os.path.join(HERE, "seeded", "*"))):
     own = "—"
     if r:
         n += 1
-        if m["property"] == "C04":
-            own = "n/a (C04 not claimed)"
-            n -= 1
-        else:
-            own = "**yes**" if m["property"] in r["fired"] else "NO"
+        own = "**yes**" if m["property"] in r["fired"] else "NO"
         n_ok += own == "**yes**"
     files = ", ".join(os.path.basename(f) for f in m.get("files_changed", []))
     rows.append("| %s | %s | %s | %s | %s | %s |" % (name, m["property"], files, m.get("needs_to_manifest", "")[:170], fired or "nothing", own))
